@@ -15,7 +15,14 @@ RULE = ("TLC enumerates scenario descriptors PER COMPONENT exhaustively (obstacl
         "of every role, signs, lights, incoming elements built with only their required arguments: gamma passes an "
         "optional argument only when the descriptor sets it) and the fields only protobuf carries (static-obstacle signal "
         "states, first occurrences, prediction shape).  distinct_nontrivial = distinct (descriptor, d).")
-ASSUMPTIONS = ["near twins: number tokens with a Codec!NearPairs partner (closer than 1e-10 or differing by the sign of zero, other "
+ASSUMPTIONS = ["band (Codec!HasCyclelessLight): a traffic light WITHOUT cycle is outside the quantifier (non-empty cycle) - a write "
+               "that raises is accepted and its cycle leaves are not compared; observation, not asserted: the protobuf writer raises "
+               "AttributeError for TrafficLight(id, pos) without cycle (suggested fix: out/codec_pb_light_without_cycle.patch)",
+               "edit \"retry\" of the writer-reuse route: write#1 goes to a path in a directory that does not exist (failed write, any "
+               "exception), the directory is created, write#2 of the SAME writer (write_to_file / write_scenario_to_file) is read back",
+               "protobuf only: traffic lights with an EMPTY cycle and without cycle (identified with an empty cycle, offset 0) x "
+               "direction x active (set through the setter, the constructor switches such a light off)",
+               "near twins: number tokens with a Codec!NearPairs partner (closer than 1e-10 or differing by the sign of zero, other "
                "doubles) put near-equal shapes of one kind into one scenario in both orders (occupancies, obstacle vs prediction / "
                "region shape, group members, two obstacles, two goal states); route \"twin\" writes the near twin of the whole "
                "scenario first with another writer object (sig suffix @reused-twin); closeness is decided on the exact float bits",
